@@ -102,8 +102,10 @@ def gen_world(rng, profile):
         m["blocks"][0]["name"] = "c0"
     root = "M"
     if force_sub or r.random() < profile.get("deep", 0.4):
+        un = r.random() < 0.5
         t = {"base": None, "fields": [g.decl("t0", 0)],
-             "subs": [{"name": "u%d" % i, "cls": r.choice(["M"] + leafs), "rand": r.random() < 0.75} for i in range(r.randint(1, 2))],
+             # (half of the trees reuse the member names of the class below: a path like s0.s0 names two different objects)
+             "subs": [{"name": ("u%d" if un else "s%d") % i, "cls": r.choice(["M"] + leafs), "rand": r.random() < 0.75} for i in range(r.randint(1, 2))],
              "blocks": [], "pre": r.random() < 0.6, "post": r.random() < 0.6}
         if force_sub:
             t["subs"][0].update({"cls": "M", "rand": r.random() < 0.5})
